@@ -44,7 +44,7 @@ theorem lognormalpdf_real (x mu s : ℝ) :
 theorem uniformpdf_real (x a b : ℝ) :
     uniformpdf x a b = if a ≤ x ∧ x ≤ b then 1 / (b - a) else 0 := by
   unfold uniformpdf
-  simp only [emul_real, ediv_real, add_real, sub_real, ofSci_real, ofBool_real, zero_sci, lt_real, le_real,
+  simp only [emul_real, ediv_real, sub_real, ofSci_real, ofBool_real, zero_sci, lt_real, le_real,
     mul_zero, zero_add]
   by_cases h1 : a ≤ x <;> by_cases h2 : x ≤ b <;> simp [h1, h2]
 
@@ -63,7 +63,7 @@ theorem triangularpdf_real (x a b c : ℝ) (hac : a < c) (hcb : c < b) :
   unfold triangularpdf
   simp only [emul_real, ediv_real, sub_real, mul_real, ofSci_real, ofBool_real, zero_sci, two_sci, lt_real, le_real,
     eq_real, sum_real, List.sum_cons, List.sum_nil, mul_zero, zero_add, add_zero]
-  split_ifs <;> first | (exfalso; linarith) | (simp) | skip
+  split_ifs <;> try first | (exfalso; linarith) | (simp)
   all_goals first | ring1 | (exfalso; rcases lt_trichotomy x c with h | h | h <;> contradiction)
 
 theorem loglikReg_real (y m s : ℝ) :
